@@ -153,6 +153,25 @@ def check_file_protocol(rep):
             ok = ok_tmp and derives(rn[0].rargs[0], tmp) and derives(rn[0].rargs[1], final) and len(wr) == 1 and ev.index(wr[0]) < ri and \
                 len([e for e in cr if derives(e.rargs[0], tmp)]) == 1
             okz = ok and implied(r, wr[0].ret.discr() == 0)
+            # the bytes must be IN the temp file before the rename: the writer is the created file itself, or a buffering wrapper around it
+            # that is flushed (flush / into_inner, successfully) before the rename - a wrapper flushed by its drop writes after the rename
+            if ok and wr:
+                w = origin(wr[0].rargs[0])
+                created = [e for e in cr if derives(e.rargs[0], tmp)]
+                fpay = created[0].ret.child(("v", "Ok", 0)) if created else None
+                direct_file = fpay is not None and (derives(w, fpay) or is_part_of(w, created[0].ret) or same_origin(w, fpay))
+                flushed = True
+                wrap = [e for e in ev if e.kind == "call" and re.search(r"(BufWriter|LineWriter)(<.*>)?::(new|with_capacity)$", e.callee)]
+                if not direct_file:
+                    mine = [e for e in wrap if same_origin(e.ret, w) or derives(w, e.ret)]
+                    if mine:
+                        fl = [e for e in ev if e.kind == "call" and re.search(r"::(flush|into_inner)$", e.callee) and ev.index(e) < ri and
+                              (same_origin(e.rargs[0], mine[0].ret) or derives(e.rargs[0], mine[0].ret))]
+                        flushed = bool(fl) and implied(r, fl[-1].ret.discr() == 0)
+                    else:
+                        flushed = False
+                rep.add(Query(qn + ": the serialised bytes are in the temp file before the rename (writer = the file, or a buffer flushed successfully before it)", "holds" if flushed else "violated",
+                              "writer %r" % (w,), 0, "mirsym+z3", key="C08.file.flushed-before-rename", reproduced=None))
             rep.add(Query(qn + ": rename(tmp -> final) happens only after create(tmp) and a successful complete serialisation into it", "holds" if okz else "violated",
                           "tmp ok %s, writes %d" % (ok_tmp, len(wr)), 0, "mirsym+z3", key="C08.file.rename-after-write", reproduced=None))
             if isinstance(r.ret, Agg) and r.ret.variant == "Ok":
@@ -194,6 +213,25 @@ def check_store_fetch_names(rep, ctx):
     ok = ("dir-arg", "guid-of-key", "key") in st and ("dir-arg", "guid-arg", "key") in ft
     rep.add(Query("the key file is stored as <key dir>/<key.guid>.key and looked up as <key dir>/<status guid>.key (found again after a restart)", "holds" if ok else "violated",
                   "store %s fetch %s" % (sorted(st), sorted(ft)), 0, "mirsym", key="C08.file-naming", reproduced=None))
+    # the public wrappers hand their directory and guid/key on UNCHANGED (no trimming / case folding on one side only: the name written and
+    # the name looked up after a restart must be the same bytes on a case-sensitive file system)
+    for wfn, inner, what in (("fetch_key", "fetch_local_key", "guid"), ("store_key", "store_local_key", "key"), ("check_key", "check_local_key", "key")):
+        try:
+            wpath = ctx.method("KeyKeeper", wfn)
+        except Inconclusive:
+            continue
+        engw = ctx.engine()
+        bad, n_calls = [], 0
+        for r in engw.explore(wpath):
+            _EVENTS[:] = r.events
+            for e in r.events:
+                if e.kind == "call" and re.search(r"(KeyKeeper|Self)::%s$" % inner, e.callee):
+                    n_calls += 1
+                    if not (derives(e.rargs[0], r.args[0], r.events) and derives(e.rargs[1], r.args[1], r.events)):
+                        bad.append(repr(e.rargs[1])[:80])
+        rep.functions_encoded.append(wpath)
+        rep.add(Query("%s hands its directory and its %s on to %s unchanged" % (wfn, what, inner), "holds" if n_calls and not bad else "violated", "%d calls; changed: %s" % (n_calls, bad[:2]), 0, "mirsym",
+                      key="C08.file-naming:" + wfn, reproduced=None))
     # check_local_key: Ok only if guid and key both equal
     eng = ctx.engine(inline=[(r"(KeyKeeper|Self)::fetch_local_key$", ctx.method("KeyKeeper", "fetch_local_key"))])
     n = 0
